@@ -1,5 +1,6 @@
 //! vh - the in-process conformance harness. One binary, one sub-command per binding.
 mod mangle;
+mod parse;
 mod pos;
 mod sema;
 mod sp;
@@ -14,6 +15,8 @@ fn main() {
     let rest = &args[2..];
     let rc = match args[1].as_str() {
         "mangle" => mangle::run(rest),
+        "parse" => parse::run(rest),
+        "soup" => parse::soup(rest),
         "position" => pos::run(rest),
         "sema" => sema::run(rest),
         "sp-replay" => sp::replay(rest),
